@@ -381,9 +381,9 @@ func main() {
 			lines = append(lines, fmt.Sprintf("KNOWN-FINDING: property=%s %s %s", *prop, kf.ID, kf.What))
 		}
 	}
-	if total.Unknown > 0 {
-		inconclusive = append(inconclusive, fmt.Sprintf("%d solver answers were unknown/timeout", total.Unknown))
-	}
+	// an unknown answer to a *feasibility* query keeps the branch (more paths, never fewer): it does not weaken
+	// a "holds" verdict; an unknown answer to an *obligation* aborts that path and is reported above
+	_ = total.Unknown
 	if len(inconclusive) > 0 && exit == 0 {
 		exit = 2
 	}
